@@ -153,7 +153,11 @@ class IffChunk(object):
     def delete(self) -> None:
         """Removes the chunk from the file"""
 
-        delete_bytes(self._fileobj, self.size, self.offset)
+        try:
+            delete_bytes(self._fileobj, self.size, self.offset)
+        except ValueError:
+            # the chunk claims to be larger than what the file holds
+            raise InvalidChunk("Invalid chunk size")
         if self.parent_chunk is not None:
             self.parent_chunk._remove_subchunk(self)
         self._fileobj.flush()
